@@ -40,6 +40,10 @@ cpdef CSR tidyup_csr(CSR matrix, double tol, bint inplace=True):
                 out.col_index[nnz] = matrix.col_index[ptr]
                 nnz += 1
         out.row_index[row + 1] = nnz
+    if inplace and out._scipy is not None:
+        # The scipy view was cut to the previous number of elements.
+        out._scipy.data = out._scipy.data[:nnz]
+        out._scipy.indices = out._scipy.indices[:nnz]
     return out
 
 
